@@ -5,12 +5,12 @@
 package main
 
 import (
-	"strings"
 	"bytes"
 	"encoding/base64"
 	"encoding/json"
 	"fmt"
 	"strconv"
+	"strings"
 	"time"
 
 	"github.com/matrix-org/gomatrixserverlib/tokens"
@@ -102,7 +102,7 @@ func main() { harness.Main("C20", "model_checking", run) }
 
 func run(r *harness.Run) {
 	verifhook.Clock = func() time.Time { return vnow }
-	r.Rule("full product of issue parameters (2 secrets x 2 server names x 2 users x 9 durations) x 6 issue instants (every second-of-minute class, minute/hour boundaries) x validation offsets around every boundary x (same/other secret) x (same user / other user / 7 near misses of the issued user ID: case variants of localpart and domain, padding, truncation, empty), under a virtual clock; for every issued token: every byte x 4 bit patterns of the binary macaroon, every base64 character x 9 substitutes, 9 appended caveats x 2 validating users x before/after expiry, and tokens minted with the right key from every subset/ordering/duplication of the required caveats and malformed expiry caveats. Non-trivial = distinct (token, validation) whose expected verdict is 'refuse' for exactly one reason, or 'accept'. Oracle: reftoken = same secret AND same user AND caveats exactly the three issued AND elapsed seconds < duration.")
+	r.Rule("full product of issue parameters (2 secrets x 2 server names x 4 users (two of them not starting with @) x 9 durations) x 6 issue instants (every second-of-minute class, minute/hour boundaries) x validation offsets around every boundary x (same/other secret) x (same user / other user / 10 near misses of the issued user ID: case variants of localpart and domain, padding, truncation at either end, empty), under a virtual clock; for every issued token: every byte x 4 bit patterns of the binary macaroon, every base64 character x 9 substitutes, 9 appended caveats x 2 validating users x before/after expiry, and tokens minted with the right key from every subset/ordering/duplication of the required caveats and malformed expiry caveats. Non-trivial = distinct (token, validation) whose expected verdict is 'refuse' for exactly one reason, or 'accept'. Oracle: reftoken = same secret AND same user AND caveats exactly the three issued AND elapsed seconds < duration.")
 	r.Assume("HMAC-SHA256 / the macaroon library are trusted", "the macaroon location field (server name hint) is unauthenticated by the macaroon format: alterations that leave identifier, caveats and signature byte-identical are not counted as alterations", "textual alterations that base64-decode to identical bytes are the same token")
 
 	type one struct {
@@ -148,7 +148,7 @@ func run(r *harness.Run) {
 
 	secrets := []string{"aSecretKey", "otherKey"}
 	servers := []string{"a.org", "b.org:8448"}
-	users := []string{"@u:a.org", "@v:a.org"}
+	users := []string{"@u:a.org", "@v:a.org", "dave", "user_17:a.org"} // tokens are also issued for localparts and other non-@ identifiers
 	durations := []int{0, 1, 2, 59, 60, 61, 120, 3600, -1}
 	base := int64(1_700_000_040) // 1_700_000_040 % 60 == 0
 	if base%60 != 0 {
@@ -205,7 +205,10 @@ func run(r *harness.Run) {
 							for _, vs := range secrets {
 								// the other user, and near misses of the issued one (a user ID is an opaque, case-sensitive string)
 								i := strings.IndexByte(usr, ':')
-								valUsers := append(append([]string{}, users...), strings.ToUpper(usr), strings.ToUpper(usr[:i])+usr[i:], usr[:i]+strings.ToUpper(usr[i:]), usr+" ", " "+usr, usr[:len(usr)-1], "")
+								if i < 0 {
+									i = len(usr)
+								}
+								valUsers := append(append([]string{}, users...), strings.ToUpper(usr), strings.ToUpper(usr[:i])+usr[i:], usr[:i]+strings.ToUpper(usr[i:]), usr+" ", " "+usr, usr[:len(usr)-1], usr[1:], usr[2:], usr[strings.LastIndexAny(usr, "_@")+1:], "")
 								for _, vu := range valUsers {
 									c := one{ip, valP{vs, vu, delta}, "", tok}
 									exp := vs == sec && vu == usr && delta < d
